@@ -667,6 +667,20 @@ class SymEx:
             # afterwards are not known (analyses that need exhaustiveness check this flag)
             self.opaque_mut_calls.add(name)
         app = APP(short_name(name), *[self.deep(st, a) for a in args])
+        if app[1].rsplit('::', 1)[-1] in ('deref', 'as_str', 'as_ref', 'borrow') and len(app[2]) == 1 and app[2][0][0] == 'str':
+            return [(st, app[2][0])]        # a string constant seen through String / &str views is that string
+        if app[1].rsplit('::', 1)[-1] in ('eq', 'ne') and len(app[2]) == 2 and app[2][0][0] == 'str' and app[2][1][0] == 'str' and \
+                'PartialEq' in name:
+            # equality of two string constants
+            same = app[2][0][1] == app[2][1][1]
+            return [(st, ('bool', same if app[1].endswith('eq') else not same))]
+        if app[1].rsplit('::', 1)[-1] in ('ok_or', 'ok_or_else') and 'option::Option' in name and len(app[2]) == 2 and \
+                app[2][0][0] == 'struct' and app[2][0][2] is not None:
+            # Option::ok_or(_else) on a known variant
+            o_ = app[2][0]
+            if o_[2][0] == 'Some':
+                return [(st, STRUCT('std::result::Result', ('Ok', 0), [('0', sfield(o_, '0'))]))]
+            return [(st, STRUCT('std::result::Result', ('Err', 1), [('0', APP('pk::error', app[2][1]))]))]
         if app[1] in ('tuple::eq', 'tuple::ne') and len(app[2]) == 2:
             # (a, b) == (c, d)  is  a == c & b == d  (derived structural equality of tuples)
             ta, tb = app[2]
@@ -1276,6 +1290,10 @@ class SymEx:
         mul = lambda a, b: self.binop('Mul', a, b)
         if 'point_construction' in name and last == 'new':
             return P(val(0), val(1))
+        if 'base::construction' in name and 'Matrix<N, nalgebra::U2, nalgebra::U1' in name and last == 'new' and len(args) == 2:
+            return V(val(0), val(1))            # Vector2::new(x, y)
+        if 'nalgebra::coordinates' in name and 'U2, nalgebra::U1' in name and last in ('deref', 'deref_mut'):
+            return args[0]                      # .x / .y of a Vector2
         if 'point_construction' in name and last == 'origin':
             return P(NUM(0), NUM(0))
         if 'point_coordinates' in name and last in ('deref', 'deref_mut'):
